@@ -87,6 +87,14 @@ func plan(seed int64, tier string) []vrt.Case {
 		add(fmt.Sprintf("random-%d", i), params{Kind: "random", Lo: i})
 		add(fmt.Sprintf("syms-%d", i), params{Kind: "syms", Lo: i})
 	}
+	// header edits copied with io.Copy in a process whose address space is bounded
+	nBounded := 4
+	if tier == "thorough" {
+		nBounded = 60
+	}
+	for i := 0; i < nBounded; i++ {
+		add(fmt.Sprintf("bounded-%d", i), params{Kind: "bounded", Lo: i, N: nBase})
+	}
 	return lzwork.LeadWithOneOfEach(cs, func(c vrt.Case) string { return strings.SplitN(c.ID, "-", 2)[0] })
 }
 
@@ -193,6 +201,8 @@ func (c *ctx) add(v vrt.Violation) {
 	}
 	c.o.Violations = append(c.o.Violations, v)
 }
+
+var copyPlans = []lzwork.ReadPlan{{Kind: "copy"}, {Kind: "head-copy"}}
 
 var bufPlans = []lzwork.ReadPlan{{Kind: "fixed", K: 1}, {Kind: "fixed", K: 7}, {Kind: "fixed", K: 60}, {Kind: "fixed", K: 4096}, {Kind: "prng"}}
 
@@ -358,6 +368,10 @@ func (c *ctx) one(what string, in []byte, crc bool) {
 	c.j++
 	src := lzwork.Sources[j%5]
 	rp := bufPlans[(j/5)%5]
+	if j%7 == 5 {
+		// the stream is taken the way io.Copy takes it (from the start, or after a few Read calls, or behind a bufio.Reader)
+		rp = copyPlans[(j/7)%2]
+	}
 	rp.Seed = c.seed + int64(j)
 	c.exec(what, in, crc, v, src, rp, -1)
 	if j%6 == 0 {
@@ -373,7 +387,7 @@ func (c *ctx) one(what string, in []byte, crc bool) {
 func (c *ctx) all(what string, in []byte, crc bool) {
 	v := refVerdict(in, crc)
 	for _, src := range lzwork.Sources {
-		for _, rp := range bufPlans {
+		for _, rp := range append(append([]lzwork.ReadPlan{}, bufPlans...), copyPlans...) {
 			rp.Seed = c.seed + 7
 			c.exec(what, in, crc, v, src, rp, -1)
 		}
@@ -789,6 +803,8 @@ func run(cs vrt.Case) vrt.Obs {
 	case "syms":
 		c.j = uint64(p.Lo) * 11
 		c.syms(p.Lo)
+	case "bounded":
+		c.bounded(p.Lo, baseSpecs(p.Seed, max(p.N, 20)))
 	default:
 		panic("c08: unknown case kind " + p.Kind)
 	}
@@ -796,6 +812,72 @@ func run(cs vrt.Case) vrt.Obs {
 		m["example_execution"] = c.example
 	}
 	return o
+}
+
+// bounded: valid streams whose size field was raised (and a few other header edits), each copied with io.Copy
+// into a bytes.Buffer by a child process whose address space is limited to its size at start + 1 GiB (see
+// lzwork.RunCopyBatch). Every stream must come to an end in the child: end-of-stream or an error. A child that dies
+// inside a stream (the runtime's "out of memory" is not a panic that anything could recover) refutes "terminates ...
+// without panicking" for that input in an environment users have.
+func (c *ctx) bounded(idx int, specs []lzwork.Spec) {
+	const headroomMiB = 1024
+	var batch lzwork.CopyBatch
+	batch.HeadroomMiB = headroomMiB
+	var names []string
+	r := vrt.Rand(c.seed, "c08-bounded", idx)
+	for k := 0; k < 6; k++ {
+		sp := specs[(idx*6+k)%len(specs)]
+		in := sp.Bytes()
+		for _, crc := range []bool{true, false} {
+			s := stream(in, crc)
+			n := int64(len(in))
+			sizes := []int64{n, n + 1, n + 60, 65536, 1 << 20, 1 << 24, 1 << 28, 1<<30 - 1, 1 << 30, 1<<31 - 1, -1, -(1 << 31), int64(r.Int31()), int64(r.Int31())}
+			for _, sz := range sizes {
+				for _, refix := range []bool{true, false} {
+					if !crc && !refix {
+						continue
+					}
+					batch.Streams = append(batch.Streams, withSize(s, crc, sz, refix))
+					batch.CRC = append(batch.CRC, crc)
+					names = append(names, fmt.Sprintf("%s:size=%d(refix=%v) [%s]", sp.String(), sz, refix, modeName(crc)))
+				}
+			}
+		}
+	}
+	run, err := lzwork.RunCopyBatch(batch)
+	if err != nil || !run.LimitSet {
+		c.o.Inconclusive = append(c.o.Inconclusive, fmt.Sprintf("bounded-%d: the address-space-limited child could not be used (err=%v, limit set=%v)", idx, err, run.LimitSet))
+		return
+	}
+	c.o.Count("bounded_children_run", 1)
+	for i, oc := range run.Outcomes {
+		if !oc.Begun {
+			continue // the child died before it got here: the stream that killed it is reported below
+		}
+		c.o.Evals++
+		c.o.Count("bounded_streams_copied_under_address_space_limit", 1)
+		det := map[string]any{"input": names[i], "stream_hex": lzwork.Hex(batch.Streams[i], 600), "address_space_limit": fmt.Sprintf("size at start + %d MiB", headroomMiB),
+			"child_exit_code": run.ExitCode, "child_signal": run.Signal, "child_stderr": run.Stderr}
+		switch {
+		case !oc.Ended:
+			c.add(vrt.Violation{Key: "process-death:copy-under-address-space-limit", Detail: det,
+				Desc: fmt.Sprintf("%s (%d bytes): the process copying this stream with io.Copy into a bytes.Buffer died inside it (exit %d %s): %s", names[i], len(batch.Streams[i]), run.ExitCode, run.Signal, strings.SplitN(run.Stderr, "\n", 2)[0])})
+		case oc.Panic != "":
+			c.add(vrt.Violation{Key: "panic:copy-under-address-space-limit", Detail: det, Desc: fmt.Sprintf("%s: io.Copy from the Reader panicked: %s", names[i], oc.Panic)})
+		default:
+			v := refVerdict(batch.Streams[i], batch.CRC[i])
+			if oc.N > max(v.declared, 0) {
+				c.add(vrt.Violation{Key: "more-than-declared:copy", Detail: det, Desc: fmt.Sprintf("%s: io.Copy yielded %d bytes, the header declares %d", names[i], oc.N, v.declared)})
+			}
+			if oc.Close == "<nil>" && (!(v.class == "exact" || v.class == "exact+trailing") || v.class == "exact" && batch.CRC[i] && !v.crcOK) {
+				c.add(vrt.Violation{Key: "close-success:copy:" + v.class, Detail: det, Desc: fmt.Sprintf("%s: Close returned nil after io.Copy although the reference classifies the stream as %s", names[i], v.class)})
+			}
+			c.o.Sig("bounded %s", names[i])
+		}
+	}
+	if c.o.Sample == nil {
+		c.o.Sample = map[string]any{"kind": "bounded", "streams_in_child": len(batch.Streams), "address_space_limit": fmt.Sprintf("size at start + %d MiB", headroomMiB), "first": names[0]}
+	}
 }
 
 var dirtyOnce [][]byte
